@@ -410,37 +410,50 @@ def apply_step(asm, step, fresh):
         raise ValueError(op)
 
 
+def model_start(scaffolds):
+    """plain model of an assembly: ([[scaffold name, rows], ...], number of scaffolds made by edits so far)"""
+    return [[f"s{si:02d}", list(rows)] for si, rows in enumerate(scaffolds)], 0
+
+
+def model_rows(state):
+    return [rows for _, rows in state[0]]
+
+
 def model_step(state, step):
-    """the same edit on plain lists of rows (only used by the generators, to keep indices valid)"""
+    """the same edit on the plain model (only used by the generators, to keep indices valid)"""
     op, a = step[0], step[1:]
-    st = [list(rows) for rows in state]
+    st = [[nm, list(rows)] for nm, rows in state[0]]
+    fresh = state[1]
     if op == "add_row":
-        st[a[0]].append(a[1])
+        st[a[0]][1].append(a[1])
     elif op == "set_row":
-        st[a[0]][a[1]] = a[2]
+        st[a[0]][1][a[1]] = a[2]
     elif op == "insert_row":
-        st[a[0]].insert(a[1], a[2])
+        st[a[0]][1].insert(a[1], a[2])
     elif op == "del_row":
-        del st[a[0]][a[1]]
+        del st[a[0]][1][a[1]]
     elif op == "assign_rows":
-        st[a[0]] = list(a[1])
+        st[a[0]][1] = list(a[1])
     elif op in ("list_append", "add_scaffold"):
-        st.append(list(a[0]))
+        st.append([f"n{fresh:02d}", list(a[0])])
+        fresh += 1
     elif op == "list_del":
         del st[a[0]]
     elif op == "list_assign":
-        st = [list(st[i]) for i in a[0]]
+        st = [st[i] for i in a[0]]
+    elif op == "sort":
+        st.sort(key=lambda sc: sc[0])  # stable, all ranks equal; the names are made so that every natural order agrees
     elif op == "reverse":
-        st[a[0]] = [r if r[0] == "GAP" else [r[0], r[1], r[2], -r[3]] for r in reversed(st[a[0]])]
+        st[a[0]][1] = [r if r[0] == "GAP" else [r[0], r[1], r[2], -r[3]] for r in reversed(st[a[0]][1])]
     elif op == "join":
-        st[a[0]] = st[a[0]] + ([["GAP", 200]] if a[2] and st[a[0]] else []) + st[a[1]]
+        st[a[0]][1] = st[a[0]][1] + ([["GAP", 200]] if a[2] and st[a[0]][1] else []) + st[a[1]][1]
         if not a[3]:
             del st[a[1]]
-    return st
+    return st, fresh
 
 
 def build_assembly(scaffolds, build):
-    scs = [Scaffold(f"s{si}", [row_obj(r) for r in rows]) for si, rows in enumerate(scaffolds)]
+    scs = [Scaffold(f"s{si:02d}", [row_obj(r) for r in rows]) for si, rows in enumerate(scaffolds)]
     if build == "ctor":
         return Assembly("qc", scaffolds=scs)
     asm = Assembly("qc")
@@ -496,7 +509,7 @@ def scan_now(asm):
 
 def check_rescan(inp, col):
     """-> list of the numbers of overlapping pairs at each scan"""
-    fresh = (f"n{k}" for k in itertools.count())
+    fresh = (f"n{k:02d}" for k in itertools.count())
     asm = build_assembly(inp["scaffolds"], inp.get("build", "add"))
     steps = inp["steps"]
     scans = inp.get("scans", "every")
@@ -580,11 +593,11 @@ RESCAN_BASES = (
 
 def rescan_sequences(state, depth, full):
     """every sequence of 1..depth edits from the menus (each menu taken at the state its predecessors lead to), shortest first"""
-    level = [([], state)]
+    level = [([], model_start(state))]
     for _ in range(depth):
         nxt = []
         for steps, st in level:
-            for step in step_menu(st, full):
+            for step in step_menu(model_rows(st), full):
                 yield [*steps, step]
                 nxt.append(([*steps, step], model_step(st, step)))
         level = nxt
@@ -613,9 +626,10 @@ def rescan_cases(tier, rng):
     # long seeded edit histories on assemblies with many overlapping pairs
     for ci in range(400):
         base = big_assembly(rng.randint(3, 60), rng.randint(1, 4), ci % 3 == 0, rng)
-        state, steps = base, []
+        model, steps = model_start(base), []
         names = sorted({r[0] for rows in base for r in rows})
         for _ in range(rng.randint(3, 12)):
+            state = model_rows(model)
             n = len(state)
             nm = rng.choice(names)
             a = rng.randint(1, 70)
@@ -633,7 +647,7 @@ def rescan_cases(tier, rng):
                 cands += [["join", si, sj, rng.random() < 0.5, False]]
             st = rng.choice(cands)
             steps.append(st)
-            state = model_step(state, st)
+            model = model_step(model, st)
         yield {"kind": "rescan", "scaffolds": base, "build": rng.choice(("add", "ctor", "parser")), "scans": rng.choice(("every", "every", "ends")), "steps": steps}
 
 
@@ -785,7 +799,8 @@ def run_in(tier, seed, **opts):
         "parser order; thorough: fuller menu, 3 edits, long seeded histories), each scan judged against the rows held at "
         "that moment; "
         "non-trivial = distinct (input) tuples (for the command line: at least one overlapping pair expected; for repeated "
-        "scans: the number of overlapping pairs differs between two scans)"
+        "scans: the number of overlapping pairs differs between two scans)",
+        max_samples=8,
     )
     ivs = [(s, e) for s in range(1, N + 1) for e in range(s, N + 1)]
     for (s1, e1), (s2, e2) in itertools.product(ivs, ivs):
@@ -794,12 +809,6 @@ def run_in(tier, seed, **opts):
             inp = {"kind": "pair", "a": a, "b": b}
             check_pair(Fragment(*a), Fragment(*b), col, inp)
             col.case((a, b), sample=inp if (s1, e1, s2, e2) == (2, 4, 3, 5) else None)
-    # scans repeated on one Assembly object, edits in between
-    for ri, inp in enumerate(rescan_cases(tier, rng)):
-        counts = check_rescan(inp, col)
-        col.case(("rescan", json.dumps(inp, sort_keys=True)), nontrivial=len(set(counts)) > 1, sample=inp if ri == 333 else None)
-        if col.full:
-            break
     # scans
     pool = [("c", 1, 4, 1), ("c", 2, 3, 1), ("c", 4, 6, -1), ("c", 5, 6, 1), ("c", 1, 4, 1), ("d", 1, 4, 1), ("c", 7, 7, 1), ("c", 1, 7, -1)]
     max_n = 4 if tier == "quick" else 5
@@ -848,4 +857,14 @@ def run_in(tier, seed, **opts):
                 count += 1
             if col.full:
                 break
-    return col.result(bounds=f"coordinates 1..{N}; assemblies of <= {max_n} fragments from a pool of {len(pool)}", exhaustive=True)
+    # scans repeated on one Assembly object, edits in between
+    for ri, inp in enumerate(rescan_cases(tier, rng) if not col.full else ()):
+        counts = check_rescan(inp, col)
+        col.case(("rescan", json.dumps(inp, sort_keys=True)), nontrivial=len(set(counts)) > 1, sample=inp if ri == 333 else None)
+        if col.full:
+            break
+    return col.result(
+        bounds=f"coordinates 1..{N}; assemblies of <= {max_n} fragments from a pool of {len(pool)}; repeated scans: <= "
+        f"{2 if tier == 'quick' else 3} edits from the menu (thorough: seeded histories of <= 12 edits)",
+        exhaustive=True,
+    )
